@@ -495,8 +495,11 @@ META = {
                   "parses are only compared as 'failed' (the error kind is not tied); a failure is a spec failure only under must_succeed "
                   "(a sufficient condition: unclean inputs demand nothing). Not modelled: default_config_files, aliases, explicit null, "
                   "PREFIX_CFG variables, non-int options; two defects were seen by probe in that unmodelled space (notes/C17.md, round 6: a "
-                  "default config file without a choice on a parser with a required subcommand makes every parse fail; APP_CFG giving a.x "
-                  "together with APP_SUBCOMMAND=a loses a.x) and are NOT covered by any theorem or by the tie. Trusted: Coq kernel/VM, the model's faithfulness outside the generated cases, "
+                  "default config file without a choice on a parser with a required subcommand made every parse fail - fixed in /repo e3568f9; "
+                  "APP_CFG giving a.x together with APP_SUBCOMMAND=a lost a.x - fixed in /repo 3663e43); that space is still NOT covered by any "
+                  "theorem or by the tie. Since 3663e43 _load_env_vars runs the environment-named sub-parser with defaults=False; the model's "
+                  "load_env_vars still merges that sub-parser's defaults there (the later handle_subcommands pass adds them in the code): "
+                  "observationally equal on every generated case (0 disagreements), shape to be followed next round. Trusted: Coq kernel/VM, the model's faithfulness outside the generated cases, "
                   "the harness rendering of argv/JSON/environment, argparse tokenisation. No axioms.",
     "technique": "Rocq proof by induction on fuel over a Gallina model of the parse pipeline, parameterised by the tree variant "
                  "(pinned / repaired): invariants Handled -> Sel through handle_subcommands and the links pass, preservation of an "
